@@ -595,9 +595,11 @@ theorem C05_passOK_invariant (cfg : Cfg) (ops : List Op)
   passOK_run { cfg := cfg } ops (fun m hm => by cases hm) hc
 
 /-- after EVERY history: any passphrase other than the current one fails with ErrWrongPassphrase and leaves the
-manager locked (whether it was locked or unlocked before).  `_partial`: on the current tree (no f12) the histories
-must not use the EMPTY private passphrase (see `C05_counterexample_F12` for what goes wrong otherwise — for the
-*right* passphrase; the wrong-passphrase clause itself is not known to fail). -/
+manager locked (whether it was locked or unlocked before).  `_partial`: the hypothesis `hc` — on a tree without the
+salt fix (f12 = false) the histories must not use the EMPTY private passphrase (see `C05_counterexample_F12` for what
+goes wrong otherwise — for the *right* passphrase; the wrong-passphrase clause itself is not known to fail).  On the
+current tree (/repo aeb55de and later, f12 = true, detected by the engine's probe) the first disjunct of `hc` holds
+and the statement covers every history. -/
 theorem C05_unlock_wrong_histories_partial (cfg : Cfg) (ops : List Op)
     (hc : cfg.f12 = true ∨ ∀ op ∈ ops, op.noEmpty = true) (m : Mem)
     (hm : (run { cfg := cfg } ops).mem = some m) (hw : m.watchOnly = false) (p : Nat) (hp : p ≠ m.privPass) (d : Disk) :
@@ -683,7 +685,8 @@ theorem C05_counterexample_F2b :
     (step s (.unlock 1)).2 = .err .panic := by
   decide
 
-/-- F12 (open on the current tree): with an EMPTY private passphrase (accepted by ChangePassphrase) the first
+/-- F12 (tree without the fix; fixed in /repo aeb55de — `Cfg.repo` is /repo at ebb54a5, before that commit, with
+f12 = false): with an EMPTY private passphrase (accepted by ChangePassphrase) the first
 Unlock(current passphrase) of an unlocked manager fails and locks it (the salt was wiped through the aliasing
 `append(salt[:], passphrase...)`). -/
 theorem C05_counterexample_F12 :
